@@ -139,8 +139,15 @@ func serverGoroutines() (acc, hand, cop, lst int) {
 		if !strings.Contains(g, want) {
 			continue
 		}
+		// "<count> @ <pcs>" heads every group of identical stacks; the first group follows the profile's own header line
 		n := 0
-		fmt.Sscanf(strings.TrimSpace(g), "%d @", &n)
+		for _, ln := range strings.Split(g, "\n") {
+			if k := strings.Index(ln, " @ "); k > 0 {
+				if _, err := fmt.Sscanf(ln, "%d @", &n); err == nil {
+					break
+				}
+			}
+		}
 		switch {
 		case strings.Contains(g, "ConnectionHandler).acceptStream.func"):
 			hand += n
